@@ -6,6 +6,7 @@ CONSTANTS
   AngleGuard = TRUE
   FontFix = FALSE
   BgFix = FALSE
+  TrackAttribution = FALSE
   AttrEscapes = 2
   EmitEdges = FALSE
 INIT Init
